@@ -1,10 +1,11 @@
 SPECIFICATION Spec
 CONSTANTS
-  Msgs = {1, 2, 3}
+  Msgs = {1, 2}
   MaxParts = 2
   Refs = {7, 8}
   SameRef = FALSE
   Echo = TRUE
   MaxResend = 1
-INVARIANTS Unmixed AtMostOnce Paired
+INVARIANTS SPaired
+PROPERTY Refines
 CHECK_DEADLOCK FALSE
